@@ -4,6 +4,8 @@
 package main
 
 import (
+	"bytes"
+	"crypto/rand"
 	"encoding/base64"
 	"errors"
 	"strconv"
@@ -70,6 +72,14 @@ func main() {
 			return xhex([]byte(amp.EncodePath(payload(a[1]))))
 		case "rt":
 			return decRes(amp.DecodePath(amp.EncodePath(payload(a[1]))))
+		case "encwith":
+			// EncodePath with crypto/rand handing out exactly these cache-breaker bytes (rand.Reader is the
+			// package's documented source; a short supply makes EncodePath panic, which the loop reports)
+			old := rand.Reader
+			rand.Reader = bytes.NewReader(payload(a[1]))
+			p := amp.EncodePath(payload(a[2]))
+			rand.Reader = old
+			return xhex([]byte(p)) + " " + decRes(amp.DecodePath(p))
 		case "b64":
 			return xhex([]byte(base64.RawURLEncoding.EncodeToString(payload(a[1]))))
 		}
